@@ -178,6 +178,10 @@ class PeerBase:
             self.log('fault', c.idx, at=label, op=op)
             if op == 'close_before':
                 raise _Abort()
+            elif op == 'reset_before':
+                # abortive close: the other side sees a TCP reset instead of an orderly end
+                c.reset = True
+                raise _Abort()
             elif op == 'stall_before':
                 self._stall(c)
             elif op == 'delay':
@@ -209,12 +213,17 @@ class PeerBase:
                 data = data[o:]
             elif op == 'then_close':
                 then = 'close'
+            elif op == 'then_reset':
+                then = 'reset'
             elif op == 'then_stall':
                 then = 'stall'
             else:
                 raise ValueError('unknown fault op %r' % op)
         self._raw_send(c, data, segment, delay)
         self.log('sent', c.idx, msg=label, n=len(data))
+        if then == 'reset':
+            c.reset = True
+            raise _Abort()
         if then == 'close':
             raise _Abort()
         if then == 'stall':
@@ -377,6 +386,14 @@ class PeerBase:
             self._finish(c)
 
     def _finish(self, c):
+        if getattr(c, 'reset', False):
+            try:
+                c.sock.setsockopt(socket.SOL_SOCKET, socket.SO_LINGER, struct.pack('ii', 1, 0))
+                c.sock.close()
+            except OSError:
+                pass
+            self.log('closed', c.idx, eof_seen=c.eof_seen, rx=len(c.rx), tx=len(c.tx), reset=True)
+            return
         # Learn how the other side ended: wait briefly for its EOF unless we already saw it.
         if not c.eof_seen and not self.stopping:
             try:
